@@ -54,6 +54,12 @@ def gen_case(streams, tier):
     # an rtl_assert on some 1-bit wire: when it fires the caller catches the exception and
     # keeps stepping (the asserting step is a complete cycle)
     case['assert_wire'] = f.choice(one_bit) if one_bit and f.random() < 0.25 else None
+    # a constructor call that is refused first: its memory_value_map holds a word that does not
+    # fit; the real simulator is then built without mentioning that memory at all
+    rams = [i for i, m in enumerate(script['mems']) if not m.get('rom')]
+    case['bad_init_first'] = f.choice(rams) if rams and f.random() < 0.3 else None
+    if case['bad_init_first'] is not None:
+        case['init']['mems'].pop(str(case['bad_init_first']), None)
     case['cycles'], hole_faults = gen.split_rom_holes(script, case['init'], case['cycles'])
     case['faults'] += hole_faults
     return case
@@ -68,6 +74,21 @@ def run(case, res):
     b = world.build_dut(script, sched, stage=world.stage_with_hook(case.get('stage'), res))
     if case.get('dut_is_working'):
         pyrtl.set_working_block(b.block, no_sanity_check=True)
+    bi = case.get('bad_init_first')
+    if bi is not None and bi < len(b.mems) and str(bi) not in init.get('mems', {}):
+        m = b.mems[bi]
+        amax = (1 << m.addrwidth) - 1
+        bad_map = {m: {0: 1, amax: 1, min(1, amax): 1 << m.bitwidth}}     # the misfit comes last
+        for other_i, om in enumerate(b.mems):
+            if other_i != bi and not script['mems'][other_i].get('rom'):
+                bad_map[om] = {0: 1}
+        try:
+            pyrtl.Simulation(tracer=pyrtl.SimulationTrace('all', block=b.block),
+                             memory_value_map=bad_map, block=b.block)
+        except pyrtl.PyrtlError:
+            res.faults.hit('constructor_refused_for_bad_memory_word')
+        else:
+            raise common.Inconclusive('a memory word that does not fit was accepted')
     ref = world.ref_for(script, init)
     if case.get('assert_wire') in b.wires:
         with pyrtl.set_working_block(b.block, no_sanity_check=True):
@@ -206,6 +227,10 @@ def candidates(case):
     if case.get('assert_wire'):
         c = copy.deepcopy(case)
         c['assert_wire'] = None
+        yield c
+    if case.get('bad_init_first') is not None:
+        c = copy.deepcopy(case)
+        c['bad_init_first'] = None
         yield c
     if case.get('second_instance'):
         c = copy.deepcopy(case)
